@@ -139,6 +139,12 @@ def _assigned_truth(stmt, name: str) -> Optional[bool]:
         v, path = d.value, d.path
         while path and isinstance(v, (ast.Tuple, ast.List)) and isinstance(path[0], int) and path[0] < len(v.elts):
             v, path = v.elts[path[0]], path[1:]
+        if not path and d.kind == "assign" and isinstance(v, ast.BinOp) and isinstance(v.op, ast.Add):
+            # ``n = n + 1`` / ``n = 1 + n``: the same fact as ``n += 1``
+            sides = [(v.left, v.right), (v.right, v.left)]
+            if any(isinstance(a, ast.Name) and a.id == name and isinstance(b, ast.Constant) and isinstance(b.value, (int, float)) and not isinstance(b.value, bool) and b.value > 0 for a, b in sides):
+                out = True
+                continue
         if path or not isinstance(v, ast.Constant):
             return None
         if d.kind == "aug":
@@ -473,6 +479,153 @@ from ..selftest import Variant  # noqa: E402
 
 _RET = "tree, initial_linting_errors, ignore_mask, rule_timings"
 
+# One pass of the fix loop, from the reset of the flag to the exit test: for variants that re-spell the flag
+# at all three sites at once (stale as soon as any line of the pass changes; the single-site variants stay).
+_PASS_SPAN = r'''                changed = False
+
+                if is_first_linter_pass():
+                    # In order to compute initial_linting_errors correctly, need
+                    # to run all rules on the first loop of the main phase.
+                    rules_this_phase = rule_pack.rules
+                progress_bar_crawler = tqdm(
+                    rules_this_phase,
+                    desc="lint by rules",
+                    leave=False,
+                    disable=progress_bar_configuration.disable_progress_bar,
+                )
+
+                for crawler in progress_bar_crawler:
+                    # Performance: After first loop pass, skip rules that don't
+                    # do fixes. Any results returned won't be seen by the user
+                    # anyway (linting errors ADDED by rules changing SQL, are
+                    # not reported back to the user - only initial linting errors),
+                    # so there's absolutely no reason to run them.
+                    if (
+                        fix
+                        and not is_first_linter_pass()
+                        and not crawler.is_fix_compatible
+                    ):
+                        continue
+
+                    progress_bar_crawler.set_description(f"rule {crawler.code}")
+                    t0 = time.monotonic()
+
+                    # fixes should be a dict {} with keys edit, delete, create
+                    # delete is just a list of segments to delete
+                    # edit and create are list of tuples. The first element is
+                    # the "anchor", the segment to look for either to edit or to
+                    # insert BEFORE. The second is the element to insert or create.
+                    linting_errors, _, fixes, _ = crawler.crawl(
+                        tree,
+                        dialect=config.get("dialect_obj"),
+                        fix=fix,
+                        templated_file=templated_file,
+                        ignore_mask=ignore_mask,
+                        fname=fname,
+                        config=config,
+                    )
+                    if is_first_linter_pass():
+                        initial_linting_errors += linting_errors
+
+                    if fix and fixes:
+                        linter_logger.info(f"Applying Fixes [{crawler.code}]: {fixes}")
+                        # Do some sanity checks on the fixes before applying.
+                        anchor_info = compute_anchor_edit_info(fixes)
+                        if any(
+                            not info.is_valid for info in anchor_info.values()
+                        ):  # pragma: no cover
+                            message = (
+                                f"Rule {crawler.code} returned conflicting "
+                                "fixes with the same anchor. This is only "
+                                "supported for create_before+create_after, so "
+                                "the fixes will not be applied. "
+                            )
+                            for uuid, info in anchor_info.items():
+                                if not info.is_valid:
+                                    message += f"\n{uuid}:"
+                                    for _fix in info.fixes:
+                                        message += f"\n    {_fix}"
+                            cls._report_conflicting_fixes_same_anchor(message)
+                            for lint_result in linting_errors:
+                                lint_result.fixes = []
+                        elif fixes == last_fixes:
+                            # If we generate the same fixes two times in a row,
+                            # that means we're in a loop, and we want to stop.
+                            # (Fixes should address issues, hence different
+                            # and/or fewer fixes next time.)
+                            # This is most likely because fixes could not be safely
+                            # applied last time, so we should stop gracefully.
+                            linter_logger.debug(
+                                f"Fixes generated for {crawler.code} are the same as "
+                                "the previous pass. Assuming that we cannot apply them "
+                                "safely. Passing gracefully."
+                            )
+                        else:
+                            # This is the happy path. We have fixes, now we want to
+                            # apply them.
+                            last_fixes = fixes
+                            new_tree, _, _, _valid = apply_fixes(
+                                tree,
+                                config.get("dialect_obj"),
+                                crawler.code,
+                                anchor_info,
+                                fix_even_unparsable=config.get("fix_even_unparsable"),
+                                max_parse_depth=config.get("max_parse_depth"),
+                                max_parse_nodes=config.get("max_parse_nodes"),
+                            )
+
+                            # Check for infinite loops. We use a combination of the
+                            # fixed templated file and the list of source fixes to
+                            # apply.
+                            loop_check_tuple = (
+                                new_tree.raw,
+                                tuple(new_tree.source_fixes),
+                            )
+                            # Was anything actually applied? If not, then the fixes we
+                            # had cannot be safely applied and we should stop trying.
+                            if loop_check_tuple == (tree.raw, tuple(tree.source_fixes)):
+                                linter_logger.debug(
+                                    f"Fixes for {crawler.code} could not be safely be "
+                                    "applied. Likely due to initially unparsable file."
+                                )
+                            elif not _valid:
+                                # The fixes result in an invalid file. Don't apply
+                                # the fix and skip onward. Show a warning.
+                                linter_logger.warning(
+                                    f"Fixes for {crawler.code} not applied, as it "
+                                    "would result in an unparsable file. Please "
+                                    "report this as a bug with a minimal query "
+                                    "which demonstrates this warning."
+                                )
+                            elif loop_check_tuple not in previous_versions:
+                                # We've not seen this version of the file so
+                                # far. Continue.
+                                tree = new_tree
+                                previous_versions.add(loop_check_tuple)
+                                changed = True
+                                continue
+                            else:
+                                # Applying these fixes took us back to a state
+                                # which we've seen before. We're in a loop, so
+                                # we want to stop.
+                                cls._warn_unfixable(crawler.code)
+
+                    # Record rule timing
+                    rule_timings.append(
+                        (crawler.code, crawler.name, time.monotonic() - t0)
+                    )
+
+                if fix and not changed:
+'''
+
+
+def _respell(span: str, *pairs) -> str:
+    for old, new in pairs:
+        assert span.count(old) == 1, old
+        span = span.replace(old, new)
+    return span
+
+
 VARIANTS: List[Variant] = [
     Variant(
         "lt05-comment-scan-bounded-by-the-source-line", "src/sqlfluff/rules/layout/LT05.py",
@@ -533,7 +686,146 @@ VARIANTS: List[Variant] = [
         "                            elif loop_check_tuple in previous_versions:\n                                cls._warn_unfixable(crawler.code)\n                            else:\n                                previous_versions.add(loop_check_tuple)\n                                changed = True\n                                tree = new_tree\n                                continue\n",
         "QUIET", None, "membership test inverted, arms swapped, the flag set just before the tree is rebound",
     ),
+    # behaviour-preserving refactors: must stay quiet
+    Variant(
+        "quiet-exit-test-as-nested-ifs", LINTER,
+        "                if fix and not changed:\n                    # We did not change the file. Either the file is clean (no\n                    # fixes), or any fixes which are present will take us back\n                    # to a previous state.\n                    linter_logger.info(\n                        f\"Fix loop complete for {phase} phase. Stability \"\n                        f\"achieved after {loop}/{loop_limit} loops.\"\n                    )\n                    break\n",
+        "                if fix:\n                    if not changed:\n                        linter_logger.info(\n                            f\"Fix loop complete for {phase} phase. Stability \"\n                            f\"achieved after {loop}/{loop_limit} loops.\"\n                        )\n                        break\n",
+        "QUIET", None, "the conjunction of the exit test as two nested ifs",
+    ),
+    Variant(
+        "quiet-exit-test-flag-is-false", LINTER,
+        "                if fix and not changed:\n", "                if fix and changed is False:\n",
+        "QUIET", None, "the flag only ever holds True/False: `changed is False` is `not changed`",
+    ),
+    Variant(
+        "quiet-skip-test-as-nested-ifs", LINTER,
+        "                    if (\n                        fix\n                        and not is_first_linter_pass()\n                        and not crawler.is_fix_compatible\n                    ):\n                        continue\n",
+        "                    if fix and not is_first_linter_pass():\n                        if not crawler.is_fix_compatible:\n                            continue\n",
+        "QUIET", None, "skip test split into nested ifs",
+    ),
+    Variant(
+        "quiet-skip-test-first-pass-in-a-local", LINTER,
+        "                    if (\n                        fix\n                        and not is_first_linter_pass()\n                        and not crawler.is_fix_compatible\n                    ):\n                        continue\n",
+        "                    first_pass = is_first_linter_pass()\n                    can_fix = crawler.is_fix_compatible\n                    if fix and not first_pass and not can_fix:\n                        continue\n",
+        "QUIET", None, "both operands of the skip test read into locals first",
+    ),
+    Variant(
+        "quiet-skip-test-as-if-else-around-the-crawl", LINTER,
+        "                    if (\n                        fix\n                        and not is_first_linter_pass()\n                        and not crawler.is_fix_compatible\n                    ):\n                        continue\n",
+        "                    if not fix or is_first_linter_pass() or crawler.is_fix_compatible:\n                        pass\n                    else:\n                        continue\n",
+        "QUIET", None, "De Morgan: the skip is the else arm of the negated test",
+    ),
+    Variant(
+        "quiet-rules-loop-variable-renamed", LINTER, "crawler", "rule_obj", "QUIET", None,
+        "loop variable of the rules loop (and the progress bar local) renamed", count=16,
+    ),
+    Variant(
+        "quiet-crawl-positional-arguments", LINTER,
+        "                    linting_errors, _, fixes, _ = crawler.crawl(\n                        tree,\n                        dialect=config.get(\"dialect_obj\"),\n                        fix=fix,\n                        templated_file=templated_file,\n                        ignore_mask=ignore_mask,\n                        fname=fname,\n                        config=config,\n                    )\n",
+        "                    crawled = crawler.crawl(\n                        tree, config.get(\"dialect_obj\"), fix, templated_file, ignore_mask, fname, config\n                    )\n                    linting_errors, fixes = crawled[0], crawled[2]\n",
+        "QUIET", None, "crawl called positionally, its result kept whole and indexed",
+    ),
+    Variant(
+        "quiet-crawl-tree-by-keyword", LINTER,
+        "                    linting_errors, _, fixes, _ = crawler.crawl(\n                        tree,\n                        dialect=config.get(\"dialect_obj\"),\n",
+        "                    linting_errors, _, fixes, _ = crawler.crawl(\n                        tree=tree,\n                        dialect=config.get(\"dialect_obj\"),\n",
+        "QUIET", None, "the working tree handed to crawl by keyword",
+    ),
+    Variant(
+        "quiet-exhaustion-arm-inverted", LINTER,
+        "                if fix:\n                    # The linter loop hit the limit",
+        "                if not fix:\n                    pass\n                else:\n                    # The linter loop hit the limit",
+        "QUIET", None, "the loop-limit arm as the else of `if not fix`",
+    ),
+    Variant(
+        "quiet-pass-count-in-a-local", LINTER,
+        "            for loop in range(loop_limit if phase == \"main\" else 2):\n",
+        "            passes = loop_limit if phase == \"main\" else 2\n            for loop in range(passes):\n",
+        "QUIET", None, "bound of the pass loop through a local",
+    ),
+    Variant(
+        "quiet-phase-rule-list-built-by-a-loop", LINTER,
+        "                rules_this_phase = [\n                    rule for rule in rule_pack.rules if rule.lint_phase == phase\n                ]\n",
+        "                rules_this_phase = []\n                for rule in rule_pack.rules:\n                    if rule.lint_phase == phase:\n                        rules_this_phase.append(rule)\n",
+        "QUIET", None, "comprehension as an append loop (outside the pass loop)",
+    ),
+    Variant(
+        "quiet-first-pass-rule-list-by-conditional-expression", LINTER,
+        "                if is_first_linter_pass():\n                    # In order to compute initial_linting_errors correctly, need\n                    # to run all rules on the first loop of the main phase.\n                    rules_this_phase = rule_pack.rules\n",
+        "                rules_this_phase = rule_pack.rules if is_first_linter_pass() else rules_this_phase\n",
+        "QUIET", None, "the first-pass rebinding as a conditional expression that keeps the list otherwise",
+    ),
+    Variant(
+        "quiet-adoption-through-a-local", LINTER,
+        "                                tree = new_tree\n                                previous_versions.add(loop_check_tuple)\n",
+        "                                adopted = new_tree\n                                tree = adopted\n                                previous_versions.add(loop_check_tuple)\n",
+        "QUIET", None, "the adopted tree through one more local",
+    ),
+    Variant(
+        "quiet-log-line-between-flag-and-continue", LINTER,
+        "                                changed = True\n                                continue\n",
+        "                                changed = True\n                                linter_logger.debug(\"adopted fixes of %s\", crawler.code)\n                                continue\n",
+        "QUIET", None, "a log line between the flag and the continue",
+    ),
+    Variant(
+        "quiet-rules-loop-over-enumerate", LINTER,
+        "                for crawler in progress_bar_crawler:\n",
+        "                for _rule_no, crawler in enumerate(progress_bar_crawler):\n",
+        "QUIET", None, "the rules loop numbered with enumerate (index unused)",
+    ),
+    Variant(
+        "quiet-cv03-comparison-operands-swapped", "src/sqlfluff/rules/convention/CV03.py",
+        "                            elif seg.pos_marker.source_position() == comma_pos:\n",
+        "                            elif comma_pos == seg.pos_marker.source_position():\n",
+        "QUIET", None, "operands of the reviewed identity test swapped",
+    ),
+    Variant(
+        "quiet-al08-previous-alias-renamed", "src/sqlfluff/rules/aliasing/AL08.py",
+        "previous", "earlier_alias", "QUIET", None, "local renamed in a reviewed function", count=3,
+    ),
+    Variant(
+        "quiet-respace-source-arm-as-if-else", "src/sqlfluff/utils/reflow/respace.py",
+        "        ws_line = (\n            whitespace_seg.pos_marker.line_no\n            if use_source_positions\n            else whitespace_seg.pos_marker.working_line_no\n        )\n",
+        "        if use_source_positions:\n            ws_line = whitespace_seg.pos_marker.line_no\n        else:\n            ws_line = whitespace_seg.pos_marker.working_line_no\n",
+        "QUIET", None, "conditional expression of a reviewed read as an if/else statement",
+    ),
+    Variant(
+        "quiet-flag-spelled-stable-with-inverse-polarity", LINTER, _PASS_SPAN,
+        _respell(_PASS_SPAN, ("                changed = False\n", "                stable = True\n"), ("                                changed = True\n", "                                stable = False\n"), ("                if fix and not changed:\n", "                if fix and stable:\n")),
+        "QUIET", None, "the flag with the opposite polarity: reset to True, cleared by the adoption, exit when still set",
+    ),
+    Variant(
+        "quiet-flag-as-counter", LINTER, _PASS_SPAN,
+        _respell(_PASS_SPAN, ("                changed = False\n", "                n_adopted = 0\n"), ("                                changed = True\n", "                                n_adopted += 1\n"), ("                if fix and not changed:\n", "                if fix and n_adopted == 0:\n")),
+        "QUIET", None, "adoptions counted, exit when the count is zero",
+    ),
+    Variant(
+        "quiet-flag-as-counter-spelled-x-plus-1", LINTER, _PASS_SPAN,
+        _respell(_PASS_SPAN, ("                changed = False\n", "                n_adopted = 0\n"), ("                                changed = True\n", "                                n_adopted = n_adopted + 1\n"), ("                if fix and not changed:\n", "                if fix and not n_adopted:\n")),
+        "QUIET", None, "the count spelled `n = n + 1` instead of `n += 1`",
+    ),
+    Variant(
+        "quiet-first-pass-test-evaluated-once-per-pass", LINTER, _PASS_SPAN,
+        _respell(
+            _PASS_SPAN, ("                changed = False\n", "                changed = False\n                first_pass = is_first_linter_pass()\n"),
+            ("                        and not is_first_linter_pass()\n", "                        and not first_pass\n"),
+            ("                if is_first_linter_pass():\n                    # In order", "                if first_pass:\n                    # In order"),
+            ("                    if is_first_linter_pass():\n                        initial_linting_errors += linting_errors", "                    if first_pass:\n                        initial_linting_errors += linting_errors"),
+        ),
+        "QUIET", None, "the closure called once per pass and its value kept in a local",
+    ),
     # ---- breaking edits -------------------------------------------------------------------------
+    Variant(
+        "counter-spelled-x-plus-1-bumped-in-the-wrong-arm", LINTER, _PASS_SPAN,
+        _respell(_PASS_SPAN, ("                changed = False\n", "                n_adopted = 0\n"), ("                                changed = True\n                                continue\n", "                                continue\n"), ("                                cls._warn_unfixable(crawler.code)\n", "                                cls._warn_unfixable(crawler.code)\n                                n_adopted = n_adopted + 1\n"), ("                if fix and not changed:\n", "                if fix and not n_adopted:\n")),
+        "R17a", "lint_fix_parsed", "twin of quiet-flag-as-counter-spelled-x-plus-1: the count is bumped where nothing was adopted and not where the tree was",
+    ),
+    Variant(
+        "counter-exit-tolerates-one-adoption", LINTER, _PASS_SPAN,
+        _respell(_PASS_SPAN, ("                changed = False\n", "                n_adopted = 0\n"), ("                                changed = True\n", "                                n_adopted = n_adopted + 1\n"), ("                if fix and not changed:\n", "                if fix and n_adopted <= 1:\n")),
+        "R17a", "lint_fix_parsed", "twin: the exit also fires after a pass with one adoption",
+    ),
     Variant(
         "flag-not-set-on-adoption", LINTER,
         "                                previous_versions.add(loop_check_tuple)\n                                changed = True\n",
